@@ -142,37 +142,60 @@ var namings0 = []naming{
 // Left record i:  lid=L<i>, <join fields that are present>, v=a<i> [, x=p<i> when i==1 and hetero]
 // Right record i: rid=R<i>, v=A<i> [, x=q<i> when i==0 and hetero], <join fields that are present>
 // "v" collides on every pair, "x" on some; lid/rid are unique identities.
-func buildLeft(ts []tuple, names []string, hetero bool) []rec {
+
+// placeKeys inserts the present join fields into base at a position that
+// depends on slot: 0 = first, 1 = after the id field, 2 = last.
+func placeKeys(base rec, t tuple, names []string, slot int) rec {
+	var keys rec
+	for j, n := range names {
+		if t[j] != missing {
+			keys = append(keys, fld{n, t[j]})
+		}
+	}
+	at := len(base)
+	switch slot {
+	case 0:
+		at = 0
+	case 1:
+		at = 1
+	}
+	out := append(rec{}, base[:at]...)
+	out = append(out, keys...)
+	return append(out, base[at:]...)
+}
+
+// rotate=false: the left join fields sit after lid, the right ones last.
+// rotate=true: the position varies from record to record (left: first / after
+// lid / last by i mod 3; right: shifted by one), so records of one file carry
+// the join field at different positions.
+func buildLeft(ts []tuple, names []string, hetero, rotate bool) []rec {
 	out := make([]rec, len(ts))
 	for i, t := range ts {
-		r := rec{{"lid", fmt.Sprintf("L%d", i)}}
-		for j, n := range names {
-			if t[j] != missing {
-				r = append(r, fld{n, t[j]})
-			}
-		}
-		r = append(r, fld{"v", fmt.Sprintf("a%d", i)})
+		base := rec{{"lid", fmt.Sprintf("L%d", i)}, {"v", fmt.Sprintf("a%d", i)}}
 		if hetero && i == 1 {
-			r = append(r, fld{"x", fmt.Sprintf("p%d", i)})
+			base = append(base, fld{"x", fmt.Sprintf("p%d", i)})
 		}
-		out[i] = r
+		slot := 1
+		if rotate {
+			slot = i % 3
+		}
+		out[i] = placeKeys(base, t, names, slot)
 	}
 	return out
 }
 
-func buildRight(ts []tuple, names []string, hetero bool) []rec {
+func buildRight(ts []tuple, names []string, hetero, rotate bool) []rec {
 	out := make([]rec, len(ts))
 	for i, t := range ts {
-		r := rec{{"rid", fmt.Sprintf("R%d", i)}, {"v", fmt.Sprintf("A%d", i)}}
+		base := rec{{"rid", fmt.Sprintf("R%d", i)}, {"v", fmt.Sprintf("A%d", i)}}
 		if hetero && i == 0 {
-			r = append(r, fld{"x", fmt.Sprintf("q%d", i)})
+			base = append(base, fld{"x", fmt.Sprintf("q%d", i)})
 		}
-		for j, n := range names {
-			if t[j] != missing {
-				r = append(r, fld{n, t[j]})
-			}
+		slot := 2
+		if rotate {
+			slot = (i + 1) % 3
 		}
-		out[i] = r
+		out[i] = placeKeys(base, t, names, slot)
 	}
 	return out
 }
@@ -192,6 +215,7 @@ type family struct {
 	// sortedOnly: only lists that are sorted by the key (key-less records anywhere); longer lists for the -s merge
 	sortedOnly bool
 	noIE       bool // the alphabet has no empty value: --ignore-empty is not varied
+	rotate     bool // the join field's position varies from record to record within each file
 }
 
 func t1(vals ...string) []tuple {
@@ -213,6 +237,7 @@ func families(quick bool) []family {
 	p3 := []pvar{pvarsAll[0], pvarsAll[3], pvarsAll[5]}
 	p6 := pvarsAll[:6]
 	p1 := pvarsAll[:1]
+	k2 := t1("1", "2")
 	k3 := t1("1", "2", "3")
 	k3m := t1("1", "2", "3", missing)
 	if quick {
@@ -222,6 +247,7 @@ func families(quick bool) []family {
 			{name: "two", alpha: t8, maxLen: 2, names: namings2, pv: [][]pvar{p2, p2}, ifs: ";", sThin: true},
 			{name: "zero", alpha: z, maxLen: 3, names: namings0, pv: [][]pvar{p2}, ifs: ","},
 			{name: "sorted5", alpha: k3, maxLen: 5, names: namings1[:1], pv: [][]pvar{p1}, ifs: ",", sortedOnly: true, noIE: true},
+			{name: "dup4", alpha: k2, maxLen: 4, names: namings1[:2], pv: [][]pvar{p2, p2}, ifs: ",", noIE: true, rotate: true, formats: true},
 		}
 	}
 	return []family{
@@ -230,6 +256,7 @@ func families(quick bool) []family {
 		{name: "two3", alpha: t5, maxLen: 3, names: namings2, pv: [][]pvar{p2, p2}, ifs: ";", sThin: true},
 		{name: "zero", alpha: z, maxLen: 3, names: namings0, pv: [][]pvar{p6}, ifs: ","},
 		{name: "sorted5", alpha: k3m, maxLen: 5, names: namings1[:1], pv: [][]pvar{p1}, ifs: ",", sortedOnly: true, noIE: true},
+		{name: "dup4", alpha: k2, maxLen: 4, names: namings1[:2], pv: [][]pvar{p6, p6}, ifs: ",", noIE: true, rotate: true, formats: true},
 	}
 }
 
@@ -242,7 +269,7 @@ func (f *family) pairs() []pairCase {
 	if f.sortedOnly {
 		var keep [][]tuple
 		for _, s := range seqs {
-			if _, loose := sortedness(buildLeft(s, f.names[0].lj, false), f.names[0].lj); loose {
+			if _, loose := sortedness(buildLeft(s, f.names[0].lj, false, false), f.names[0].lj); loose {
 				keep = append(keep, s)
 			}
 		}
@@ -387,7 +414,7 @@ func gridWorker(w *vf.Worker) {
 			if !sampled[fam.name] && len(pc.L) >= 2 && len(pc.R) >= 2 {
 				sampled[fam.name] = true
 				n := fam.names[len(fam.names)-1]
-				L, R := buildLeft(pc.L, n.lj, true), buildRight(pc.R, n.rj, true)
+				L, R := buildLeft(pc.L, n.lj, true, fam.rotate), buildRight(pc.R, n.rj, true, fam.rotate)
 				w.Sample(map[string]any{"family": fam.name, "left_file": writeDKVP(L, fam.ifs), "right_stream": writeDKVP(R, fam.ifs),
 					"example_args": "join " + strings.Join(n.flags, " ") + " --ul --ur --lp L_ -f L.dkvp"})
 			}
@@ -461,11 +488,31 @@ func (rn *runner) block(fam *family, pc pairCase) {
 	}
 	for ni := range fam.names {
 		n := &fam.names[ni]
-		L, R := buildLeft(pc.L, n.lj, true), buildRight(pc.R, n.rj, true)
+		L, R := buildLeft(pc.L, n.lj, true, fam.rotate), buildRight(pc.R, n.rj, true, fam.rotate)
 		ltext, rtext := writeDKVP(L, fam.ifs), writeDKVP(R, fam.ifs)
 		ls, ll := sortedness(L, n.lj)
 		rs, rl := sortedness(R, n.rj)
 		strict, loose := ls && rs, ll && rl
+		// some key has a bucket of >= 2 records on both sides
+		dupBoth := false
+		{
+			lc, rc := map[string]int{}, map[string]int{}
+			for _, l := range L {
+				if k, ok := keyOf(l, n.lj, false); ok {
+					lc[strings.Join(k, "\x00")]++
+				}
+			}
+			for _, r := range R {
+				if k, ok := keyOf(r, n.rj, false); ok {
+					rc[strings.Join(k, "\x00")]++
+				}
+			}
+			for k, c := range lc {
+				if c >= 2 && rc[k] >= 2 {
+					dupBoth = true
+				}
+			}
+		}
 		if ni == 0 {
 			switch {
 			case strict:
@@ -520,6 +567,12 @@ func (rn *runner) block(fam *family, pc pairCase) {
 							continue
 						}
 						rn.count("mode:s-sorted-input", 1)
+						if dupBoth {
+							rn.count("mode:s-sorted-input-dup-keys-both-sides", 1)
+							if e.ul {
+								rn.count("mode:s-sorted-input-dup-keys-both-sides-with-ul", 1)
+							}
+						}
 						if len(recs) > 0 {
 							rn.count("mode:s-sorted-input-nonempty-output", 1)
 						}
@@ -861,7 +914,7 @@ func (rn *runner) formatPass(fam *family, n *naming, pc pairCase) {
 	}
 	ps := []*pvar{&pvarsAll[0], &pvarsAll[3]}
 	for _, hetero := range []bool{true, false} {
-		L, R := buildLeft(pc.L, n.lj, hetero), buildRight(pc.R, n.rj, hetero)
+		L, R := buildLeft(pc.L, n.lj, hetero, fam.rotate), buildRight(pc.R, n.rj, hetero, fam.rotate)
 		rtext := writeDKVP(R, fam.ifs)
 		type lf struct{ fmtName, flag, lname, text string }
 		fmts := []lf{{"json", "json", "L.json", writeJSON(L)}}
@@ -896,7 +949,7 @@ func (rn *runner) formatPass(fam *family, n *naming, pc pairCase) {
 
 func run(c *vf.Ctx) {
 	c.Rule = "every (left list, right list) over the key alphabet with lists of bounded length x every option set of the family (7 emit-flag sets x --ignore-empty x field naming x prefix/keep variant x {default, -s}); each invocation goes through the whole CLI in-process (left file served by name, right stream on stdin). distinct_nontrivial = default-mode invocations whose reference output is non-empty (all invocations differ in input or options by construction)"
-	c.Assume("bounds: join-key alphabet {1, 2, empty, missing, 01}, lists of <= 3 records per side (quick: 01 only in lists of <= 2), two-field keys in lists of <= 2 (thorough: <= 3 on a 5-tuple alphabet), zero-field join on lists of <= 3")
+	c.Assume("bounds: join-key alphabet {1, 2, empty, missing, 01}, lists of <= 3 records per side (quick: 01 only in lists of <= 2), two-field keys in lists of <= 2 (thorough: <= 3 on a 5-tuple alphabet), zero-field join on lists of <= 3; family dup4: keys {1,2}, all lists of <= 4 with the join field at a different position in successive records of each file; family sorted5: sorted lists of <= 5 over {1,2,3} (thorough: plus missing)")
 	c.Assume("non-join field names never equal a join-field output name; left/right non-join names collide on v (always) and x (left record 1 / right record 0)")
 	c.Assume("relative position of right-unpaired records among paired records, and order among left-unpaired records, are not fixed by the documentation: counted as unconstrained, only their multiset is asserted")
 	c.Assume("-s (sorted-input mode): asserted equal as a multiset to default mode only when both inputs are sorted (lexically ascending on the join-field texts, key-less records anywhere; violations on lists whose key-less records are not last are reported under a separate key); on unsorted input only: terminates, exit 0, parseable output, no paired record that is not a true pairing")
@@ -920,7 +973,7 @@ func run(c *vf.Ctx) {
 	c.Extra["families"] = fams
 	// vacuity: every flag and symbol must have been exercised
 	for _, k := range []string{"flag:--np", "flag:--ul", "flag:--ur", "flag:--ignore-empty", "flag:-s", "flag:-u", "flag:--lp", "flag:--rp", "flag:--lk", "flag:-l", "flag:-r", "flag:-j", "flag:-i",
-		"sym:L:1", "sym:L:2", "sym:L:E", "sym:L:M", "sym:L:01", "sym:R:1", "sym:R:E", "sym:R:M", "mode:s-sorted-input", "mode:s-unsorted-input", "leftfmt:json", "leftfmt:csv", "expect:has-pairs", "expect:has-left-unpaired", "expect:has-right-unpaired"} {
+		"sym:L:1", "sym:L:2", "sym:L:E", "sym:L:M", "sym:L:01", "sym:R:1", "sym:R:E", "sym:R:M", "mode:s-sorted-input", "mode:s-sorted-input-dup-keys-both-sides-with-ul", "mode:s-unsorted-input", "leftfmt:json", "leftfmt:csv", "expect:has-pairs", "expect:has-left-unpaired", "expect:has-right-unpaired"} {
 		if c.Counters[k] == 0 && os.Getenv("VERIF_C13_FAMILY") == "" {
 			c.Broken("vacuity: %s was never exercised", k)
 		}
